@@ -24,7 +24,7 @@ TCaseStart ==
     /\ hx.ended                                  \* the previous case ran to its end (or ended as specified)
     /\ life' = <<>> /\ pool' = <<>> /\ loose' = {} /\ owed' = <<>>
     /\ op' = NoOp /\ heap' = <<>>
-    /\ cfg' = [mode |-> "strict", ety |-> R.ety, rec |-> R.rec]
+    /\ cfg' = [mode |-> "strict", ety |-> R.ety, rec |-> R.rec, cl |-> <<>>]
     /\ XReset
 
 TCaseEnd == /\ Ev("case_end") /\ Quiescent /\ XQuiescent /\ ~hx.failed
@@ -92,7 +92,7 @@ TUnwound == Ev("unwound") /\ LET u == IF Anonymous THEN [R EXCEPT !.obs = ZObs(@
             /\ UNCHANGED xVars
 TCb == Ev("cb") /\ Cb(ZCb(R)) /\ UNCHANGED xVars
 TCbRet == Ev("cb_ret") /\ CbRet(ZCbRet(R)) /\ UNCHANGED xVars
-TClone == Ev("clone") /\ CloneStep(ZCloneSrc(R.src), ZId(R.new)) /\ UNCHANGED xVars
+TClone == Ev("clone") /\ CloneStep(ZCloneSrc(R.src), ZId(R.new), R.nth) /\ UNCHANGED xVars
 TClonePanic == Ev("clone_panic") /\ ClonePanicStep(R.src) /\ UNCHANGED xVars
 TMkDef == Ev("mkdef") /\ DefaultStep(ZId(R.id)) /\ UNCHANGED xVars
 TDrop == /\ Ev("drop")
